@@ -148,7 +148,10 @@ def tabulate(exe, wd, jobs, shards, maxstates=50000):
     stats = json.loads(out.strip().splitlines()[-1])
     log("[tabulate] %d layouts, %d table states, %d real steps, %d panics, %d truncated, %.1fs"
         % (stats["layouts"], stats["table_states"], stats["impl_steps"], stats["panics"], stats["truncated_layouts"], time.time() - t0))
-    return stats, [os.path.join(wd, "tab", "shard_%d.ndjson" % i) for i in range(shards)]
+    files = sorted(os.path.join(wd, "tab", f) for f in os.listdir(os.path.join(wd, "tab")) if f.endswith(".ndjson"))
+    # largest first, so that the process pool finishes evenly
+    files.sort(key=lambda f: -os.path.getsize(f))
+    return stats, files
 
 
 def run_model(res, wd, shards, props, known, tags, prop, replay_path="", module="MapperImplMC", timeout=3000, mem="3g"):
